@@ -339,7 +339,7 @@ fn stub_cert_message(
 ) -> crate::mac::certification::Response {
     crate::mac::certification::Response::NoUpdate
 }
-//@h id=rx_a_len17_cert props=C07,C04,C05 tier=quick build=dev-eu868-cert cost=120 timeout=1500
+//@h id=rx_a_len17_cert props=C07,C05 tier=quick build=dev-eu868-cert cost=120 timeout=1500
 //@bounds `certification` feature compiled in: Class A window, 17 bytes, FOptsLen 0 (FPort + 4-byte FRMPayload), any port but the certification port 224; arbitrary session including the certification protocol's own fields (RxAppCnt, frame-type override): a frame that is not accepted leaves all of them unchanged, no counter arithmetic can overflow
 //@encodes Session::handle_rx (certification build)
 //@assumes Session::handle_downlink_macs stubbed by a no-op; Certification::handle_message cut (frames on port 224 assumed away); AES/CMAC are uninterpreted functions
